@@ -89,6 +89,11 @@ func urlValueFor(r *gen.R, f *ir.Field, sample string, isPath bool) urlVal {
 			uv.class = "out_of_range"
 		case 2:
 			uv.text, uv.class = "+7", "valid"
+		case 3:
+			// decimal only: a leading zero is not octal, a prefix or a digit separator is malformed
+			uv.text, uv.class = gen.Pick(r, []string{"0010", "0100", "007", "08"}), "valid"
+		case 4:
+			uv.text, uv.class = gen.Pick(r, []string{"0x1F", "0b11", "0o17", "1_000", "0X10"}), "malformed"
 		}
 	}
 	if !isPath && f.Card == "repeated" {
